@@ -78,7 +78,20 @@ func c08hClient(n uint64, p *client.Persistent) string {
 		vfBool(p.IgnoreQueryLog), vfBool(p.IgnoreStatistics))
 }
 
+func c08hFinderCoq(ops, tbl, rts, coqIDs []string, ignQ, count bool) string {
+	if len(rts) > 0 {
+		return vfApp("CFinderRt", vfList("op", ops), vfList("(bytes * bytes) * bytes", tbl), vfList("bytes * bytes", rts), vfList("id", coqIDs), vfBool(ignQ), vfBool(count))
+	}
+	return vfApp("CFinder", vfList("op", ops), vfList("(bytes * bytes) * bytes", tbl), vfList("id", coqIDs), vfBool(ignQ), vfBool(count))
+}
+
 func c08hCase(t *testing.T, out *vfOut, clients [][]string, flags [][2]bool, leases map[string]string, cid, addr string, tag string) {
+	c08hCaseRt(t, out, clients, flags, leases, nil, cid, addr, tag)
+}
+
+// c08hCaseRt: the same with runtime records (a host name from rDNS, through the
+// real Storage.UpdateAddress) for the addresses [runtime].
+func c08hCaseRt(t *testing.T, out *vfOut, clients [][]string, flags [][2]bool, leases map[string]string, runtime []string, cid, addr string, tag string) {
 	d := &c08hDHCP{tbl: map[netip.Addr]net.HardwareAddr{}}
 	stor, err := client.NewStorage(context.Background(), &client.StorageConfig{
 		Logger: slogutil.NewDiscardLogger(), Clock: timeutil.SystemClock{}, DHCP: d})
@@ -111,6 +124,13 @@ func c08hCase(t *testing.T, out *vfOut, clients [][]string, flags [][2]bool, lea
 		tbl = append(tbl, vfPair(c08hAddr(ip), vfBytes(string(m))))
 		desc = append(desc, "lease "+a+"="+leases[a])
 	}
+	var rts []string
+	for i, a := range runtime {
+		ra := netip.MustParseAddr(a)
+		stor.UpdateAddress(context.Background(), ra, fmt.Sprintf("host%d.lan", i), nil)
+		rts = append(rts, c08hAddr(ra))
+		desc = append(desc, "runtime record (rDNS) for "+a)
+	}
 	cc := &clientsContainer{storage: stor, clientChecker: c08hChecker{}}
 
 	// ids exactly as dnsforward builds them
@@ -140,6 +160,14 @@ func c08hCase(t *testing.T, out *vfOut, clients [][]string, flags [][2]bool, lea
 	// the property on the finders themselves: a request whose ClientID or exact
 	// address is listed by a client gets that client's flags (ClientID first)
 	var classes []string
+	if len(runtime) > 0 {
+		classes = append(classes, "finder-runtime-record")
+		for _, a := range runtime {
+			if netip.MustParseAddr(a) == ip {
+				classes = append(classes, "finder-runtime-record-for-request")
+			}
+		}
+	}
 	mon, key := "", ""
 	if panicked {
 		mon, key = "finder panicked", "finder-panic"
@@ -197,6 +225,10 @@ func c08hCase(t *testing.T, out *vfOut, clients [][]string, flags [][2]bool, lea
 			mon = fmt.Sprintf("ids %v belong to client %q (by %s: ignore_querylog=%v ignore_statistics=%v) but findMultiple says ignore=%v, shouldCountClient says %v",
 				ids, owner.Name, how, owner.IgnoreQueryLog, owner.IgnoreStatistics, ignQ, count)
 			key = "finder-flags-of-owner"
+			if len(runtime) > 0 && ignQ != owner.IgnoreQueryLog {
+				mon += fmt.Sprintf(" (runtime records for %v)", runtime)
+				key = "runtime-record-hides-ignored-client"
+			}
 			// known finding: the ClientID is read as the MAC of another client
 			if m, merr := net.ParseMAC(cid); merr == nil {
 				for _, p := range added {
@@ -219,7 +251,7 @@ func c08hCase(t *testing.T, out *vfOut, clients [][]string, flags [][2]bool, lea
 	}
 	desc = append(desc, fmt.Sprintf("ids %v", ids))
 	c := vfCase{
-		Coq:     vfApp("CFinder", vfList("op", ops), vfList("(bytes * bytes) * bytes", tbl), vfList("id", coqIDs), vfBool(ignQ), vfBool(count)),
+		Coq:     c08hFinderCoq(ops, tbl, rts, coqIDs, ignQ, count),
 		Classes: classes, Nontrivial: ignQ || !count, MonitorOK: mon == "", MonitorMsg: mon,
 		Desc: map[string]any{"kind": tag, "events": desc},
 	}
@@ -227,7 +259,7 @@ func c08hCase(t *testing.T, out *vfOut, clients [][]string, flags [][2]bool, lea
 		c.FindingKey = "C08-" + key
 	}
 	out.Emit(c)
-	if panicked || len(added) == 0 {
+	if panicked || len(added) == 0 || len(runtime) > 0 {
 		return
 	}
 
@@ -344,6 +376,19 @@ func TestVerifC08Home(t *testing.T) {
 		}
 	}
 
+	// runtime records (round 8, O) for addresses that also identify persistent
+	// clients with ignore flags: by exact address, CIDR, lease MAC, zoned address
+	for _, f := range flagSets[:3] {
+		cl := [][]string{{"192.168.1.5"}, {"10.0.0.0/8"}, {"aa:bb:cc:dd:ee:01"}, {"cli1"}, {"fe80::1%eth0", "2001:db8::/32"}}
+		fl := [][2]bool{f, f, f, f, f}
+		ls := map[string]string{"192.168.77.1": "aa:bb:cc:dd:ee:01"}
+		rt := []string{"192.168.1.5", "10.0.0.7", "192.168.77.1", "2001:db8::1234:5678", "8.8.8.8", "fe80::1"}
+		for _, q := range [][2]string{{"", "192.168.1.5"}, {"", "10.0.0.7"}, {"", "192.168.77.1"}, {"cli1", "8.8.8.8"}, {"cli3", "10.0.0.7"},
+			{"", "fe80::1"}, {"", "2001:db8::1234:5678"}, {"", "8.8.8.8"}, {"", "192.168.1.6"}} {
+			c08hCaseRt(t, out, cl, fl, ls, rt, q[0], q[1], "prelude-runtime")
+		}
+	}
+
 	r := vfNewRand(out.Seed)
 	for i := out.Scale(150, 3000); i > 0; i-- {
 		n := 1 + r.Intn(3)
@@ -376,7 +421,20 @@ func TestVerifC08Home(t *testing.T) {
 		if r.Chance(1, 2) {
 			ls[strings.Split(vfPick(r, c08hAddrs[:6]), "%")[0]] = vfPick(r, []string{"aa:bb:cc:dd:ee:01", "aa:bb:cc:dd:ee:02"})
 		}
-		c08hCase(t, out, cl, fl, ls, vfPick(r, c08hCIDs), vfPick(r, c08hAddrs), "random")
+		qa := vfPick(r, c08hAddrs)
+		if r.Chance(1, 3) {
+			// runtime records, mostly for the very address of the request
+			var rt []string
+			if r.Chance(3, 4) {
+				rt = append(rt, strings.Split(qa, "%")[0])
+			}
+			if len(rt) == 0 || r.Bool() {
+				rt = append(rt, strings.Split(vfPick(r, c08hAddrs), "%")[0])
+			}
+			c08hCaseRt(t, out, cl, fl, ls, rt, vfPick(r, c08hCIDs), qa, "random-runtime")
+			continue
+		}
+		c08hCase(t, out, cl, fl, ls, vfPick(r, c08hCIDs), qa, "random")
 	}
 
 	// third part: scenarios on the object graph built by the real initDNS
